@@ -28,6 +28,8 @@ type sshdItem struct {
 	// the client-chosen field of this line (user name of a failure line, key id of a certificate login) holds text that
 	// looks like another record: see hostile.go
 	Hostile *hostileInfo `json:"hostile,omitempty"`
+	// Episode: the line is not part of a phase; the NEW writer of the writer-restart episode writes it (reader.go)
+	Episode bool `json:"after_writer_restart,omitempty"`
 }
 
 func (s sshdItem) accepted() bool { return strings.HasPrefix(s.Kind, "accepted") }
@@ -112,6 +114,10 @@ type scenario struct {
 	Sshd       []sshdItem    `json:"sshd"`
 	Audit      []auditItem   `json:"audit"`
 	Phases     []phase       `json:"phases"`
+	// reader-level input classes (reader.go): the last phase holds long records, bursts written in one piece; Restart:
+	// after the sentinel the sshd writer leaves an unterminated record behind and closes, a new writer continues
+	ReaderLevel bool         `json:"reader_level,omitempty"`
+	Restart     *restartPlan `json:"writer_restart,omitempty"`
 }
 
 // pids / session ids of generated sessions stay below these; the harness' own sentinel uses them
@@ -119,6 +125,10 @@ const (
 	sentinelPID  = 3999999
 	sentinelSes  = 3999998
 	sentinelUser = "verif-sentinel"
+	// the second sentinel: written by the new writer of a writer-restart episode (reader.go)
+	sentinel2PID  = 3999997
+	sentinel2Ses  = 3999996
+	sentinel2User = "verif-sentinel-2"
 	stormPID     = 5000000 // pids of the burst lines: stormPID + i
 	unsetSes     = "4294967295"
 )
